@@ -20,6 +20,7 @@ META = {
 def run(s):
     K.suite_workload(s)
     K.fixtures_workload(s)
+    K.collision_cases(s, 'story')
     K.recreate_cases(s, 'story')
     K.huge_cases(s, 2 if s.tier == 'quick' else 12)
     K.large_cases(s, 24 if s.tier == 'quick' else 600, 'story')
